@@ -24,6 +24,10 @@ func genSize(t *rapid.T, label string) int64 {
 
 var longGapsQuick int
 
+// LongOutages: outages of 35 s / 62 s between carriers are generated (C01 only: C05 and C18 claim
+// continuity only for gaps below the server's one-minute retention).
+var LongOutages bool
+
 // GenPreamble: most carriers send token and ClientID as one message each; some cut the 16 bytes elsewhere.
 func GenPreamble(t *rapid.T) string {
 	switch rapid.IntRange(0, 7).Draw(t, "preamble") {
@@ -47,11 +51,11 @@ func GenCarrier(t *rapid.T, maxBytes int64) Carrier {
 	if vstat.Thorough() && rapid.IntRange(0, 15).Draw(t, "longgap") == 0 {
 		// an idle gap between carriers: long but below the server's one-minute queue retention, or beyond
 		// it (35 s and 62 s also span whole 30-second periods of any timer on either side)
-		c.DialDelayMs = rapid.SampledFrom([]int{3000, 12000, 25000, 35000, 62000}).Draw(t, "gap")
-	} else if !vstat.Thorough() && vstat.Shard() == 0 && longGapsQuick == 0 && rapid.IntRange(0, 3).Draw(t, "longgapquick") == 0 {
-		// quick tier: one such outage per run, in one shard
-		c.DialDelayMs = 62000
-		longGapsQuick++
+		gaps := []int{3000, 12000, 25000}
+		if LongOutages {
+			gaps = append(gaps, 35000, 62000)
+		}
+		c.DialDelayMs = rapid.SampledFrom(gaps).Draw(t, "gap")
 	}
 	c.DialFailures = rapid.SampledFrom([]int{0, 0, 0, 1, 3}).Draw(t, "dialfail")
 	c.Preamble = GenPreamble(t)
@@ -100,6 +104,14 @@ func GenSession(t *rapid.T, label uint64, maxFaults int) Session {
 		for i := range s.DownChunk {
 			s.DownChunk[i] += 512
 		}
+	}
+	if LongOutages && !vstat.Thorough() && vstat.Shard() == 0 && longGapsQuick == 0 && maxFaults > 0 {
+		// quick tier: exactly one long outage per run, in one shard, in a session that is certain to reach it:
+		// the first carrier is cut in the middle of the payload, the second one comes 62 s later
+		longGapsQuick++
+		s.UpSize, s.DownSize = 150000, 150000
+		s.Carriers = []Carrier{{Mode: "close", CutUpAfter: int64(rapid.IntRange(3000, 60000).Draw(t, "longgapcut"))}, {DialDelayMs: 62000, Preamble: GenPreamble(t)}}
+		return s
 	}
 	nf := rapid.IntRange(0, maxFaults).Draw(t, "nfaults")
 	max := s.UpSize
